@@ -421,6 +421,27 @@ theorem hmmer_regenerate_lenient_discards (ctx : Ctx) (maxE minS : Dec) (j : J) 
     | inl h => simp [h]
     | inr h => simp [h]
 
+/-- re-saved results carry the thresholds they were last filtered with: after a reuse at stricter
+    thresholds (`e1`, `s1`) the saved JSON states exactly these, so a later run with a more lenient
+    E-value or score (`e1 < e2` or `s2 < s1`) drops them instead of accepting a hit list that is
+    missing the hits between the two thresholds -/
+theorem hmmer_resaved_then_lenient_discarded (ctx : Ctx) (x y : HmmerRes) (e1 s1 e2 s2 : Dec)
+    (hv : x.valid ctx = true) (h : x.refilter e1 s1 = .reuse y)
+    (hl : Dec.lt e1 e2 = true ∨ Dec.lt s2 s1 = true) :
+    numField y.toJson "max evalue" = some e1 ∧ numField y.toJson "min score" = some s1
+    ∧ HmmerRes.regenerate ctx e2 s2 y.toJson = .discard := by
+  obtain ⟨_, _, h3, h4, h5, h6⟩ := HmmerRes.refilter_inv h
+  simp only [HmmerRes.valid, Bool.and_eq_true, List.all_eq_true, beq_iff_eq] at hv
+  have hy : HmmerRes.fromJson ctx y.toJson = .reuse y := by
+    apply HmmerRes.fromJson_toJson ctx y (by rw [h6]; exact hv.1)
+    intro k hk
+    rw [h3] at hk
+    exact (hv.2 k (List.mem_filter.mp hk).1).1.1
+  refine ⟨by simp [numField, field, HmmerRes.toJson, lookup, h4], by simp [numField, field, HmmerRes.toJson, lookup, h5], ?_⟩
+  apply hmmer_regenerate_lenient_discards ctx e2 s2 y.toJson y hy (by simp [HmmerRes.toJson])
+  rw [h4, h5]
+  exact hl.symm
+
 /-- TTA decision table.  Stored: what `detect` wrote under threshold `old`; now: threshold `new`.
     Either the module is told to rerun (exactly when the old run skipped the record for low GC and
     the new threshold no longer does), or the regenerated results are exactly what a fresh run under
@@ -896,6 +917,12 @@ theorem hmmDetection_other_strictness_refused (ctx : Ctx) (rules : List RuleInfo
   · show setEq x.enabledTypes o.ruleNames = false
     rw [hx, ho]; exact hdiff
 
+/-- every per-gene entry that was saved is there again after regeneration — also a gene that has
+    only motif hits and no domain hit -/
+theorem nrpsPks_keeps_every_stored_gene (r : ModRules) (ctx : Ctx) (x : NrpsPks) (hv : x.valid r ctx = true) :
+    ∃ y, NrpsPks.fromJson r ctx x.toJson = .reuse y ∧ ∀ p ∈ x.cds, p.1 ∈ y.cds.map (·.1) :=
+  ⟨x, NrpsPks.fromJson_toJson r ctx x hv, fun p hp => List.mem_map_of_mem hp⟩
+
 /-! ### non-vacuity: the invariants hold on non-trivial concrete objects -/
 
 def exHit : HMMResult :=
@@ -1035,5 +1062,15 @@ example : rulesetNames exRuleInfos "strict" [] [] = ["T1PKS", "NRPS"]
     ∧ rulesetNames exRuleInfos "relaxed" [] [] = ["T1PKS", "NRPS", "PKS-like"]
     ∧ rulesetNames exRuleInfos "loose" ["T1PKS", "fatty_acid"] [] = ["T1PKS", "fatty_acid"] := by decide +kernel
 example : setEq (rulesetNames exRuleInfos "relaxed" [] []) (rulesetNames exRuleInfos "strict" [] []) = false := by decide +kernel
+
+-- saved under 0.1, reused and re-saved under 1e-20, then offered to a run at 1e-5: dropped
+example : ∃ y, ({ exHmmer with evalue := ⟨1, -1⟩ } : HmmerRes).refilter ⟨1, -20⟩ ⟨0, 0⟩ = .reuse y
+    ∧ HmmerRes.regenerate exCtx ⟨1, -5⟩ ⟨0, 0⟩ y.toJson = .discard := ⟨_, rfl, by decide +kernel⟩
+-- a gene with abMotif hits only keeps its entry through a save / regenerate cycle
+def exMotifOnly : NrpsPks := ⟨"rec1", [("cdsA", ⟨[exHit], [], []⟩), ("cdsB", ⟨[], [.mk "NRPS-A_a3" 150 170 ⟨1, -2⟩ ⟨81, -1⟩ []], []⟩)]⟩
+example : exMotifOnly.valid exRules exCtx = true := by decide
+example : ∃ y, NrpsPks.fromJson exRules exCtx exMotifOnly.toJson = .reuse y ∧ y.cds.map (·.1) = ["cdsA", "cdsB"] := by
+  obtain ⟨y, hy, ho, _⟩ := nrpsPks_regenerated_keeps_gene_order exRules exCtx exMotifOnly (by decide)
+  exact ⟨y, hy, ho⟩
 
 end ASV.C11
